@@ -58,14 +58,19 @@ type Ackers interface {
 	GetMessageId() int32
 }
 
-func hashKey(prefix string, id int32) gotomic.Hashable {
+// hashKey keeps exchanges started by the client (PUBREC stored, PUBREL expected) apart from
+// exchanges started by the broker: both sides choose their packet identifiers independently.
+func hashKey(prefix string, id int32, inbound bool) gotomic.Hashable {
+	if inbound {
+		return gotomic.StringKey(fmt.Sprintf("%s/in/%d", prefix, id))
+	}
 	return gotomic.StringKey(fmt.Sprintf("%s/%d", prefix, id))
 }
 
 func (q *queue) Ack(prefix string, pkt packet.Packet) error {
 	switch p := pkt.(type) {
 	case Ackers:
-		k := hashKey(prefix, p.GetMessageId())
+		k := hashKey(prefix, p.GetMessageId(), pkt.Type() == packet.PUBREL)
 		v, ok := q.msg.Get(k)
 		if !ok {
 			return ErrWrongMID
@@ -117,7 +122,7 @@ func (q *queue) Insert(prefix string, pkt packet.Packet, deadline time.Time, cal
 			pid:      mid,
 			deadline: deadline,
 		}
-		return q.push(hashKey(prefix, mid), msg)
+		return q.push(hashKey(prefix, mid, true), msg)
 	case *packet.PubRel:
 		mid := p.MessageId
 		if mid == 0 {
@@ -130,7 +135,7 @@ func (q *queue) Insert(prefix string, pkt packet.Packet, deadline time.Time, cal
 			pid:      mid,
 			deadline: deadline,
 		}
-		return q.push(hashKey(prefix, mid), msg)
+		return q.push(hashKey(prefix, mid, false), msg)
 	case *packet.Publish:
 		mid := p.MessageId
 		if mid == 0 {
@@ -145,7 +150,7 @@ func (q *queue) Insert(prefix string, pkt packet.Packet, deadline time.Time, cal
 				pid:      mid,
 				deadline: deadline,
 			}
-			return q.push(hashKey(prefix, mid), msg)
+			return q.push(hashKey(prefix, mid, false), msg)
 		case 2:
 			msg := message{
 				state:    packet.PUBREC,
@@ -154,7 +159,7 @@ func (q *queue) Insert(prefix string, pkt packet.Packet, deadline time.Time, cal
 				pid:      mid,
 				deadline: deadline,
 			}
-			return q.push(hashKey(prefix, mid), msg)
+			return q.push(hashKey(prefix, mid, false), msg)
 		default:
 			return ErrInvalidQos
 		}
